@@ -144,3 +144,66 @@ def rule_memoised(ctx, rid='L3'):
     if seen:
         ctx.passed(rid, P.funcs[sorted(seen)[0]], 'results are not handed out from a memo table',
                    '%d reachable function(s), %d memoised with immutable results' % (len(seen), n))
+
+
+# ----------------------------------------------------------------------------------------------
+# L4: parameters of library routines that must be integers receive integer-valued expressions
+INT_PARAMS = {
+    'numpy.round': ((1, 'decimals'),), 'numpy.around': ((1, 'decimals'),), 'numpy.round_': ((1, 'decimals'),),
+    'builtins.round': ((1, 'ndigits'),),
+    'builtins.range': ((0, None), (1, None), (2, None)),
+    'numpy.zeros': ((0, 'shape'),), 'numpy.ones': ((0, 'shape'),), 'numpy.empty': ((0, 'shape'),),
+    'numpy.linspace': ((2, 'num'),), 'numpy.repeat': ((1, 'repeats'),),
+}
+
+
+def rule_int_params(ctx, rid='L4'):
+    """A quotient or a multiple of pi where numpy / Python insists on an integer (`np.round(x, decimals)`, `range`,
+    array shapes, `linspace(num)`, `repeat(repeats)`) raises TypeError whenever the call is reached - also when the
+    call only feeds a log message."""
+    from ..paths import Evaluator, State, show
+    from .c05 import integ, REAL
+    P = ctx.P
+    n = 0
+    first = None
+    for q in sorted(ctx.functions):
+        fi = P.funcs.get(q)
+        if fi is None:
+            continue
+        for call in ast.walk(fi.node):
+            if not isinstance(call, ast.Call):
+                continue
+            try:
+                d = P.resolve_callee(fi.module, fi, call.func).dotted
+            except Exception:
+                d = None
+            spec = INT_PARAMS.get(d)
+            if not spec:
+                continue
+            for pos, kwname in spec:
+                node = None
+                if pos < len(call.args) and not any(isinstance(a, ast.Starred) for a in call.args[:pos + 1]):
+                    node = call.args[pos]
+                for kw in call.keywords:
+                    if kwname and kw.arg == kwname:
+                        node = kw.value
+                if node is None:
+                    continue
+                n += 1
+                try:
+                    outs = Evaluator(P)._ev(node, State(), fi.module, fi, 0)
+                    t = outs[0][0]
+                    cls = integ(P, t)
+                except Exception:
+                    continue
+                if cls == REAL:
+                    first = first or fi
+                    ctx.violation(rid, fi, 'integer-only library parameters receive integer-valued expressions',
+                                  '%s(...) needs an integer for its %s but gets %s (a quotient / real-valued expression): '
+                                  'TypeError whenever this call is reached'
+                                  % (d.replace('numpy.', 'np.').replace('builtins.', ''),
+                                     kwname or 'argument %d' % (pos + 1), show(t)[:70]), node=node)
+    ctx.cover['l4_integer_parameter_sites'] = n
+    if n:
+        fi0 = P.funcs[next(q for q in sorted(ctx.functions) if q in P.funcs)]
+        ctx.passed(rid, fi0, 'integer-only library parameters receive integer-valued expressions', '%d site(s)' % n)
